@@ -236,14 +236,14 @@ func ConstBoolV(b bool) *AVal {
 	return &AVal{K: ABool, B: Bit{K: B0}}
 }
 
-func TopV() *AVal               { return &AVal{K: ATop} }
-func OpaqueV(tag string) *AVal  { return &AVal{K: AOpaque, Tag: tag} }
-func ErrV(tag string) *AVal     { return &AVal{K: AErr, ErrNil: 0, Tag: tag} }
-func NilErrV() *AVal            { return &AVal{K: AErr, ErrNil: 1} }
-func UnknownErrV() *AVal        { return &AVal{K: AErr, ErrNil: -1} }
-func TupleV(t ...*AVal) *AVal   { return &AVal{K: ATuple, T: t} }
-func StrV(s string) *AVal       { return &AVal{K: AStr, Str: s} }
-func UnknownBool() *AVal        { return &AVal{K: ABool, B: Bit{K: BUnk}} }
+func TopV() *AVal              { return &AVal{K: ATop} }
+func OpaqueV(tag string) *AVal { return &AVal{K: AOpaque, Tag: tag} }
+func ErrV(tag string) *AVal    { return &AVal{K: AErr, ErrNil: 0, Tag: tag} }
+func NilErrV() *AVal           { return &AVal{K: AErr, ErrNil: 1} }
+func UnknownErrV() *AVal       { return &AVal{K: AErr, ErrNil: -1} }
+func TupleV(t ...*AVal) *AVal  { return &AVal{K: ATuple, T: t} }
+func StrV(s string) *AVal      { return &AVal{K: AStr, Str: s} }
+func UnknownBool() *AVal       { return &AVal{K: ABool, B: Bit{K: BUnk}} }
 
 // reduce tightens interval from bits and bits from interval.
 func (v *AVal) reduce() *AVal {
@@ -280,6 +280,23 @@ func (v *AVal) reduce() *AVal {
 		for i := k; i < v.W; i++ {
 			if v.Bits[i].K != B0 {
 				v.Bits[i] = Bit{K: B0}
+			}
+		}
+	}
+	// a value whose low k bits are 0 is a multiple of 2^k: tighten the interval to multiples
+	if v.Lo.Sign() >= 0 && v.Hi.Sign() >= 0 {
+		k := 0
+		for k < v.W && v.Bits[k].K == B0 {
+			k++
+		}
+		if k > 0 && k < v.W {
+			m := pow2(k)
+			lo := new(big.Int).Add(v.Lo, new(big.Int).Sub(m, bi(1)))
+			lo.Quo(lo, m).Mul(lo, m)
+			hi := new(big.Int).Quo(v.Hi, m)
+			hi.Mul(hi, m)
+			if lo.Cmp(hi) <= 0 {
+				v.Lo, v.Hi = lo, hi
 			}
 		}
 	}
@@ -533,7 +550,30 @@ func subV(a, b *AVal, w int, signed bool) (*AVal, bool) {
 	if lin != nil && (lin.Sym == "" || lin.A.Sign() == 0) {
 		lo, hi = new(big.Int).Set(lin.B), new(big.Int).Set(lin.B)
 	}
-	return wrapResult(lo, hi, lin, nil, w, signed)
+	// b's possibly-set bits are bits of a itself (x - x%2^k, x - (x & mask)): no borrow, those bits are cleared
+	var bits []Bit
+	if a.W == w && b.W == w && a.Lo.Sign() >= 0 && b.Lo.Sign() >= 0 {
+		sub := true
+		for i := 0; i < w; i++ {
+			if b.Bits[i].K != B0 && !sameSym(a.Bits[i], b.Bits[i]) {
+				sub = false
+			}
+		}
+		if sub {
+			bits = make([]Bit, w)
+			for i := 0; i < w; i++ {
+				if b.Bits[i].K == B0 {
+					bits[i] = a.Bits[i]
+				} else {
+					bits[i] = Bit{K: B0}
+				}
+			}
+			if lo.Sign() < 0 {
+				lo = bi(0)
+			}
+		}
+	}
+	return wrapResult(lo, hi, lin, bits, w, signed)
 }
 
 func mulV(a, b *AVal, w int, signed bool) (*AVal, bool) {
@@ -575,6 +615,17 @@ func remV(a, b *AVal, w int, signed bool) *AVal {
 		v := &AVal{K: AInt, W: w, S: signed, Lo: bi(0), Hi: new(big.Int).Sub(k, bi(1)), Bits: TopInt(w, signed).Bits}
 		if a.Hi.Cmp(k) < 0 {
 			return a
+		}
+		// modulo a power of two keeps the low bits (with their provenance)
+		if new(big.Int).And(k, new(big.Int).Sub(k, bi(1))).Sign() == 0 && a.W == w {
+			j := k.BitLen() - 1
+			for i := 0; i < w; i++ {
+				if i < j {
+					v.Bits[i] = a.Bits[i]
+				} else {
+					v.Bits[i] = Bit{K: B0}
+				}
+			}
 		}
 		return v.reduce()
 	}
